@@ -566,6 +566,14 @@ func c19RefusedNoEffect(c *Ctx) {
 		return
 	}
 	call := findCall(fn, func(c *ssa.Call) bool { return c.Call.StaticCallee() == h })
+	if call == nil {
+		// the request arm may have been extracted into a helper of the loop
+		for _, hf := range withHelpers(fn, 1) {
+			if cc := findCall(hf, func(c *ssa.Call) bool { return c.Call.StaticCallee() == h }); cc != nil {
+				call, fn = cc, hf
+			}
+		}
+	}
 	if !r.Anchor("C19/REFUSED-NO-EFFECT", "call of handleRequestInner in runInner", call != nil) {
 		return
 	}
